@@ -77,6 +77,9 @@ def elemSpecs : List (String × SpecFn) := [
   ("api.PayloadString", fun _ a r => do
       let p ← (a.getD 0 "").toNat?
       some (expectStr (r.getD 0 "") (payloadName (UInt64.ofNat p)).toList)),
+  ("Inf", fun _ a r => do
+      let s ← decInt (a.getD 0 ""); some (expectVal (decDec (r.getD 0 "")) (.inf (s < 0)))),
+  ("NaN", fun _ _ r => some (expectVal (decDec (r.getD 0 "")) (.nan false 5))),
   ("Abs", unaryVal absVal'),
   ("Decimal.Neg", unaryVal negate)
 ]
